@@ -69,6 +69,49 @@ def make_configs(db):
     return cfgs
 
 
+def numpy_scalar_items(ctx, db, cfgs):
+    """Python containers whose *items* are numpy numbers (what `list(an_ndarray)` or a column read with numpy gives): int64, int32,
+    float32 items in lists, tuples, rows and FixedArrays, in the default unit and in another one - judged like the same
+    amounts as Python floats; the same for a numpy number handed to CheckValueForCategory."""
+    import numpy as np
+    from barril.units import Array, FixedArray, Scalar
+
+    n = 0
+    for cfg in cfgs[:: max(1, len(cfgs) // 40)]:
+        c = cfg["category"]
+        for u in cfg["units"][:3]:
+            for vals in ([1, 8], [0, 64, 2], [-8, 4], [512, 1]):
+                ref = [Scalar(c, float(t), u).IsValid() for t in vals]
+                for tname, cast in (("np.int64", np.int64), ("np.int32", np.int32), ("np.float32", np.float32), ("np.float64", np.float64), ("np.uint8", lambda t: np.uint8(abs(t)))):
+                    if tname == "np.uint8" and any(t < 0 or t > 255 for t in vals):
+                        continue
+                    items = [cast(t) for t in vals]
+                    for kn, mk in (("list", lambda z: Array(c, list(z), u)), ("tuple", lambda z: Array(c, tuple(z), u)), ("rows", lambda z: Array(c, [tuple(z), tuple(z)], u)), ("FixedArray", lambda z: FixedArray(len(z), c, list(z), u))):
+                        ctx.ev()
+                        n += 1
+                        case = {"config": {k: cfg[k] for k in ("qt", "du", "min", "max", "min_excl", "max_excl")}, "unit": u, "values": vals, "item type": tname, "container": kn}
+                        ctx.nt(("numpy items", c, u, tname, kn))
+                        try:
+                            got = mk(items).IsValid()
+                        except Exception as e:
+                            ctx.violation("IsValid-raised:%s:%s of %s items" % (type(e).__name__, kn, tname), dict(case, error=str(e)[:160]), replay=case)
+                            continue
+                        if got != all(ref):
+                            ctx.violation("array-verdict-differs-from-elementwise-scalars:%s of %s items" % (kn, tname), dict(case, array=got, scalars=ref), replay=case)
+                    ctx.ev()
+                    try:
+                        ok = True
+                        try:
+                            db.CheckValueForCategory(c, items[0], u)
+                        except ValueError:
+                            ok = False
+                        if ok != ref[0]:
+                            ctx.violation("CheckValueForCategory-disagrees-with-Scalar:%s" % tname, dict(case, accepted=ok, scalar=ref[0]), replay=case)
+                    except Exception as e:
+                        ctx.violation("CheckValueForCategory-raised:%s:%s" % (type(e).__name__, tname), dict(case, error=str(e)[:160]), replay=case)
+    ctx.count("containers of numpy-number items validated", n)
+
+
 def float32_arrays(ctx, db, cfg):
     """an Array over a float32 (or float16) ndarray holds the amounts its elements are: the verdict is the one of the same
     amounts in a list and of the Scalars holding them - at a limit that float32 cannot write exactly, too"""
@@ -325,6 +368,18 @@ def array_verdicts(ctx, db, aff, cfg, u, vals, svs):
                 ctx.violation("array-verdict-differs-from-elementwise-scalars:%s" % kn, dict(cc, array=g, scalars=conj), replay=cc)
             if exc is not None:
                 check_report(ctx, cfg, exc, convs, cc, "Array")
+                # asked again, the rejection says the same thing in the same way (class, limit, operator, value) - as an array of the
+                # same values that is asked CheckValidity() *first* says it
+                try:
+                    (FixedArray(len(pv), c, pv, u) if mk is None else Array(c, mk(pv), u)).CheckValidity()
+                    first_hand = None
+                except Exception as e_:
+                    first_hand = e_
+                if first_hand is not None and (type(first_hand) is not type(exc) or [getattr(first_hand, f, None) for f in ("operator", "limit_value")] != [getattr(exc, f, None) for f in ("operator", "limit_value")]):
+                    ctx.violation("Array:rejection-after-IsValid-reports-differently-from-a-first-hand-one", dict(cc, first_hand=repr(first_hand)[:120], after_IsValid=repr(exc)[:120]), replay=cc)
+                if exc2 is not None and (type(exc2) is not type(exc) or [getattr(exc2, f, None) for f in ("operator", "limit_value", "value")] != [getattr(exc, f, None) for f in ("operator", "limit_value", "value")]
+                                         and not (getattr(exc, "value", 0) != getattr(exc, "value", 0))):
+                    ctx.violation("Array:second-rejection-reports-differently", dict(cc, first=repr(exc)[:120], second=repr(exc2)[:120]), replay=cc)
             seen[(kn, p)] = g
     if len(set(seen.values())) > 1:
         ctx.violation("array-verdict-depends-on-container-or-order", dict(case, verdicts={"%s%s" % k: v for k, v in list(seen.items())[:12]}), replay=case)
@@ -798,6 +853,7 @@ def run(ctx):
         add_category_tuples(ctx, db, aff, ctx.rng("addcat"), 1500 if ctx.tier == "quick" else 12000)
         if ctx.shard == 0:
             clones_with_zero_limits(ctx, db)
+            numpy_scalar_items(ctx, db, cfgs)
             ctx.sample({"config": cfgs[9], "unit": "cm", "amounts": ["Convert(m->cm, 1.0)", "+1 ulp", "-1 ulp", "nan", "inf"], "array": "every permutation x list/tuple/ndarray/FixedArray"})
             ctx.sample({"AddCategory": {"quantity_type": "length", "valid_units": ["cm", "km"], "default_unit": "m"}, "expected": "refused, or a default unit among the valid units"})
     override_histories(ctx, ctx.rng("override"), 6 if ctx.tier == "quick" else 60)
